@@ -408,6 +408,8 @@ def streaming_evaluated(repo: Repo, ci, err_attr: str, tot_attr: str, attrs0: Di
     _frag.COVERAGE = None
     if missed:
         st_, flag_ = missed[0]
+        if flag_ == "body":
+            return None, f"the samples never enter the body of the loop at line {st_.lineno}: agreement on them does not cover that path"
         return None, f"the samples never take the {'true' if flag_ else 'false'} arm of `if {unparse(st_.test)[:60]}` (line {st_.lineno}): agreement on them does not cover that path"
     return True, f"update() over 1..{len(STREAM_BATCHES)} batches + compute() equals forward() on the concatenated data ({', '.join(g for g, _ in groups)} samples; every branch of the three methods reached)"
 
@@ -470,6 +472,9 @@ def blocks_evaluated(repo: Repo, ci, m: str):
     # branches that only serve empty inputs / the other reductions are outside this evaluation's claim
     gap = None
     for st_, flag_ in scope.missed([ci.methods[m].node] + ([ci.methods["compute"].node] if m == "update" else [])):
+        if flag_ == "body":
+            gap = f"the samples never enter the body of the loop at line {st_.lineno}"
+            break
         txt_ = unparse(st_.test)
         if "reduction" in txt_ or "numel() == 0" in txt_ or "> 0" in txt_:
             continue
